@@ -549,7 +549,9 @@ package types
 //@ trusted func (tx *Transaction) To() (r *common.Address)
 // Sender recovers (or returns the cached) sender; the transaction's fields do not change.
 //@ trusted func Sender(signer Signer, tx *Transaction) (r common.Address, err error)
+//@ spec func txHashOf(tx *Transaction) common.Hash
 //@ trusted func (tx *Transaction) Hash() (r common.Hash)
+//@   ensures r == txHashOf(tx)
 
 // ---------------------------------------------------------------- C11: transaction signers
 // Two chain-id signers are interchangeable (e.g. for the cached sender) only if their chain ids are equal.
